@@ -18,7 +18,7 @@ pub fn prop() -> Prop {
                (unowned writes must leave it unchanged). Non-trivial = history with at least one add/remove/mmap; distinct = distinct histories.",
         assumptions: &["port-table model written from the property text", "reads use a privileged, effectful context"],
         exhaustive: never, run, guard,
-        level_text: "Model-based runtime monitoring: bounded-exhaustive operation sequences (depth 4 quick / 5 thorough over a reduced alphabet of 26 operations) plus long random histories, each replayed on the real device handler and on a small port-table model with recording devices as probes.",
+        level_text: "Model-based runtime monitoring: bounded-exhaustive operation sequences (depth 4 quick / 5 thorough over a reduced alphabet of 28 operations) plus long random histories, each replayed on the real device handler and on a small port-table model with recording devices as probes.",
         level_note: "Exhaustive only up to the stated depth and alphabet; the model is trusted.",
         technique: "model-based history checking with recording devices (bounded-exhaustive + random)",
         ..Prop::base("C32", "")
@@ -173,7 +173,7 @@ fn run(ctx: &mut Ctx) {
         }
         ctx.eval(); ctx.nontrivial(crate::rng::hash_bytes(format!("{ops:?}").as_bytes()));
         if run_history(ctx, &ops, false) { ctx.count("random.histories"); for o in &ops { ctx.count(&format!("ops.{}", format!("{o:?}").split('(').next().unwrap())); } }
-        if ctx.want_sample() && ops.len() < 8 { ctx.sample(Json::Arr(ops.iter().map(|o| Json::from(format!("{o:?}"))).collect())); }
+        if ctx.want_sample() { let mut v: Vec<Json> = ops.iter().take(14).map(|o| Json::from(format!("{o:?}"))).collect(); if ops.len() > 14 { v.push(Json::from(format!("... ({} operations in all)", ops.len()))); } ctx.sample(Json::Arr(v)); }
     });
 }
 
